@@ -106,6 +106,7 @@ func c25alphabet() []string {
 		cl.EvG("SUBACK(rejected, mid 1)", refsn.Pkt{Type: refsn.SUBACK, MsgID: 1, RC: 2}.Encode()),
 		cl.EvG("REGACK(rejected, mid 1)", refsn.Pkt{Type: refsn.REGACK, MsgID: 1, RC: 2}.Encode()),
 		cl.EvG("undecodable", []byte{0x05}),
+		cl.EvG("empty datagram", []byte{}),
 		cl.EvG("headerless", []byte{0x00, 0x00, 0x00}),
 		cl.EvTimer,
 	)
